@@ -239,6 +239,24 @@ func thresholdCalls() []*Call {
 			&Call{Raw: QS(f), Args: []*D{dS("string", "a"), dS("string", "b")}},
 			&Call{Raw: QS(f), Args: nil})
 	}
+	// widths and precisions between the everyday ones and the parser's limit, around powers of two: padding written in
+	// blocks, scratch buffers sized in kilobytes; every flag set x a verb/operand pair for each padding routine
+	for _, n := range []string{"255", "256", "257", "1023", "1024", "1025", "1500", "2047", "2048", "2049", "4096", "4097", "8193", "10000", "65537"} {
+		for _, fl := range []string{"", "0", "-", "+0", "#0", " ", "+"} {
+			for _, vo := range []struct {
+				verb string
+				arg  *D
+			}{{"s", dS("string", "abc")}, {"q", dS("string", "a"+startM)}, {"v", dN("bool", 1)}, {"t", dN("bool", 0)}, {"f", &D{K: "float64", F: 2.5}}, {"e", &D{K: "float64", F: -1e10}},
+				{"g", &D{K: "float64", F: 0.1}}, {"v", &D{K: "float64", F: 3}}, {"v", &D{K: "complex128", F: 1.5}}, {"d", dN("int", -42)}, {"x", dN("int", 255)}, {"x", dS("string", "hi")},
+				{"c", dN("int32", 0x4e16)}, {"U", dN("int", 0x41)}, {"v", dS("bytes", "ab")}, {"v", dN("nil", 0)}, {"d", dS("string", "bad")}, {"b", dN("uint64", 5)}, {"o", dN("int", 8)}} {
+				out = append(out, &Call{Raw: QS("a%" + fl + n + vo.verb + "|tail %d."), Args: []*D{vo.arg, dN("int", 8)}})
+				if n == "1024" || n == "1500" || n == "4097" {
+					out = append(out, &Call{Raw: QS("a%" + fl + "." + n + vo.verb + "|tail %d."), Args: []*D{vo.arg, dN("int", 8)}},
+						&Call{Raw: QS("a%" + fl + "2000." + n + vo.verb + "|tail %d."), Args: []*D{vo.arg, dN("int", 8)}})
+				}
+			}
+		}
+	}
 	for _, wt := range []string{"1e6", "1e6+1", "-1e6-1"} {
 		out = append(out, &Call{Dirs: []Dir{{Lit: "w", Width: "*", WT: wt, Verb: "d"}, {Lit: "|", Verb: "v"}}, Tail: ".", Args: []*D{dN("int", 7), dS("string", "t")}},
 			&Call{Dirs: []Dir{{Lit: "p", Prec: ".*", PT: wt, Verb: "d"}, {Lit: "|", Verb: "v"}}, Tail: ".", Args: []*D{dN("int", 7), dS("string", "t")}})
